@@ -109,3 +109,29 @@ pub fn same_name_cases(g: &mut Gen, out: &mut Sink) {
     one::<(a::S, b::X)>(g, out);
     one::<Vec<(a::S, b::S)>>(g, out);
 }
+
+/// C17: the schema-prefixed helpers identify a schema by its content, never by the declaration
+/// alone: same-named types whose definitions differ (directly, or one level down) are foreign to
+/// each other, in whatever order they are used on one thread.
+pub fn same_name_with_schema(g: &mut Gen, out: &mut Sink) {
+    use crate::schema_ops::with_schema_pair as pair;
+    for _ in 0..2 {
+        pair::<a::X, a::X>(g, out);
+        pair::<a::X, b::X>(g, out);
+        pair::<b::X, b::X>(g, out);
+        pair::<b::X, a::X>(g, out);
+        pair::<a::S, a::S>(g, out);
+        pair::<a::S, b::S>(g, out);
+        pair::<b::S, b::S>(g, out);
+        pair::<b::S, a::S>(g, out);
+    }
+    // what is embedded is the writer's own schema, whatever was used before
+    let blob = borsh::try_to_vec_with_schema(&b::X(0x0102)).unwrap();
+    let own = borsh::to_vec(&BorshSchemaContainer::for_type::<b::X>()).unwrap();
+    out.oracle("C17", blob.starts_with(&own) && blob.len() == own.len() + 2, "withschema-embedded b::X",
+               "try_to_vec_with_schema::<b::X> did not embed the schema of b::X");
+    let blob = borsh::try_to_vec_with_schema(&a::X(7)).unwrap();
+    let own = borsh::to_vec(&BorshSchemaContainer::for_type::<a::X>()).unwrap();
+    out.oracle("C17", blob.starts_with(&own) && blob.len() == own.len() + 1, "withschema-embedded a::X",
+               "try_to_vec_with_schema::<a::X> did not embed the schema of a::X");
+}
